@@ -249,8 +249,15 @@ def malformed_sub(chk, rng, w, wid, sym):
                           "\u0663\u066b\u0665"]) + " " + sym
     elif cls == "percent-sign":
         # text that is dangerous for %-formatting of the error message
-        txt = rng.choice(["5 %", "12%", "12.5 %s", "100 %" + sym, "%d " + sym,
-                          "5 %(x)s", "%", "3 % " + sym, "7 %%"])
+        cands = ["5 %", "12%", "12.5 %s", "100 %" + sym, "%d " + sym,
+                 "5 %(x)s", "%", "3 % " + sym, "7 %%"]
+        # ... but not a text that is well formed in this world (a unit may
+        # be called '%')
+        cands = [c for c in cands
+                 if not (" " in c.strip() and
+                         c.strip().split(" ", 1)[1].strip() in w.units and
+                         c.strip().split(" ", 1)[0][:1].isdigit())]
+        txt = rng.choice(cands)
         use_type = rng.random() < 0.5
     elif cls == "nan":
         txt = rng.choice(["nan", "inf", "-inf", "NaN", "Infinity"]) + " " + sym
